@@ -528,6 +528,36 @@ example : WfTags grammarSample ∧ grammarSample.name = Generated.TagAlphabet.st
       = some ["file_input.assign.list.list".toList, "file_input.assign.list.list_comp".toList] := by
   decide +kernel
 
+/-! ## the lookup rule on paths `full_pathfy` does not produce: no index = the LAST child with the tag
+
+`lastIdxWithTag tag cs` is the position of the last child of `cs` carrying `tag`. -/
+
+/-- Dropping the index of one element of a path (any position, any tree): the element then addresses the last child with
+    that tag — `pluck` of the de-indexed path is `pluck` of the path indexed with that child's position, and finds nothing
+    when no child carries the tag. -/
+theorem pluck_deindexed (p q : Path) (tag : Str) (t e : Entry) (hp : pluckRel p t = some e) :
+    pluckRel (p ++ ⟨tag, none⟩ :: q) t
+      = (lastIdxWithTag tag e.children).bind (fun j => pluckRel (p ++ ⟨tag, some j⟩ :: q) t) :=
+  pluckRel_deindexed p q tag t e hp
+
+/-- The same on the strings `ASTFinder.pluck` receives (any first element stands for the root): when the path indexed with
+    the last `tag` child below `p` leads to `x`, so does the path with that index dropped. -/
+theorem pluckS_deindexed (t : Entry) (h : WfTags t) (a : Elem) (p q : Path) (tag : Str) (e x : Entry) (j : Nat)
+    (hw : WfPath (a :: p ++ ⟨tag, none⟩ :: q)) (hp : pluckRel p t = some e)
+    (hj : lastIdxWithTag tag e.children = some j) (hx : pluckRel (p ++ ⟨tag, some j⟩ :: q) t = some x) :
+    pluckS t (encodePath (a :: p ++ ⟨tag, none⟩ :: q)) = .ok x := by
+  apply pluckS_encode t h a (p ++ ⟨tag, none⟩ :: q) x hw (by simp)
+  rw [pluckRel_deindexed p q tag t e hp, hj]
+  exact hx
+
+/-- `sample` has two `a` children (positions 0 and 2): `r.a` is `r.a[2]`, `r.a.b` is `r.a[2].b`; `r.c` is nothing -/
+example : lastIdxWithTag ['a'] sample.children = some 2 ∧
+    (pluckS sample "r.a".toList).toOption = (pluckS sample "r.a[2]".toList).toOption ∧
+    (pluckS sample "r.a.b".toList).toOption = some (.token ['b'] ['x']) ∧
+    (pluckS sample "r.a[0]".toList).toOption = some (.token ['a'] []) ∧
+    (pluckS sample "r.c".toList).toOption = none ∧ lastIdxWithTag ['c'] sample.children = none := by
+  decide +kernel
+
 /-! ## `ASTFinder.find` / `exists`: a search below any base path reports full paths of the whole tree
 
 `findS` is `ASTFinder.find(root, via, tester, depth)`: `pluck` at `via`, then `full_pathfy(entry, via, depth)` — the
